@@ -15,10 +15,10 @@ runcmd=$(head -8 $S/demo_test.go | grep -o 'go test[^`"]*' | head -1)
 pkgs=$(go list ./... | grep -v /SEEDS)
 # clean tree: demo passes
 mkdir -p $(dirname $place); cp $S/demo_test.go $place
-( cd $(dirname $place) && eval "$runcmd" ) > /tmp/seedconf.$ID.clean 2>&1; clean_rc=$?
+( eval "$runcmd" ) > /tmp/seedconf.$ID.clean 2>&1; clean_rc=$?
 # with patch
 git apply $S/patch.diff || { echo "$ID: patch does not apply"; exit 1; }
-( cd $(dirname $place) && eval "$runcmd" ) > /tmp/seedconf.$ID.mut 2>&1; mut_rc=$?
+( eval "$runcmd" ) > /tmp/seedconf.$ID.mut 2>&1; mut_rc=$?
 rm -f $place
 go build ./... > /tmp/seedconf.$ID.build 2>&1; build_rc=$?
 go test -vet=off -count=1 $pkgs > /tmp/seedconf.$ID.suite 2>&1; suite_rc=$?
